@@ -78,7 +78,7 @@ func (s *Server) Dial(owner string) (net.Conn, error) {
 	}
 	s.nextConn++
 	id := s.nextConn
-	c, srv := net.Pipe()
+	c, srv := BufPipe()
 	se := &session{srv: s, id: id, owner: owner, conn: srv, be: pgproto3.NewBackend(srv, srv),
 		stmts: map[string]*Prepared{}, portals: map[string]*portal{}}
 	s.conns[id] = se
